@@ -64,7 +64,12 @@ func solverArgv(kind string, timeoutMs int) []string {
 	case "cvc5":
 		return []string{"cvc5", "--incremental", "--lang=smt2", "--produce-models", "--tlimit-per=" + strconv.Itoa(timeoutMs)}
 	case "cvc5int":
-		return []string{"cvc5", "--incremental", "--lang=smt2", "--produce-models", "--solve-bv-as-int=sum", "--tlimit-per=" + strconv.Itoa(timeoutMs)}
+		// NOT incremental: with --incremental cvc5 1.0 skips the preprocessing that makes bv-as-int effective (a
+		// query that takes 0.5 s one-shot is still unknown after 60 s); one process per query instead
+		return []string{"cvc5", "--lang=smt2", "--produce-models", "--solve-bv-as-int=sum", "--tlimit=" + strconv.Itoa(timeoutMs)}
+	}
+	if kind == "portfolio" {
+		return []string{"true"} // no resident process: every query races fresh solver processes (portfolioQuery)
 	}
 	panic("unknown solver " + kind)
 }
@@ -228,7 +233,90 @@ func (s *Solver) Check(extra *Term, wantModel []*Term) (Result, map[string]uint6
 	return res, model
 }
 
+// portfolioQuery races three one-shot solver processes on the same self-contained script and takes the first definite
+// answer: on the arithmetic kernels (division/multiplication by constants mixed with shifts and masks) z3's bit-blaster,
+// cvc5's bit-blaster and cvc5's integer encoding each decide some queries in well under a second that the others do
+// not finish in a minute. A sat answer must come with a model; sat and unsat answers from different solvers for the
+// same query are reported as a solver error (inconclusive).
+func (s *Solver) portfolioQuery(q string, wantModel []*Term) (Result, map[string]uint64) {
+	q = strings.Replace(q, "(reset)\n", "", 1)
+	var gv strings.Builder
+	if len(wantModel) > 0 {
+		gv.WriteString("(get-value (")
+		for _, v := range wantModel {
+			gv.WriteString(v.Name + " ")
+		}
+		gv.WriteString("))\n")
+	}
+	type ans struct {
+		res   Result
+		model map[string]uint64
+		who   string
+	}
+	secs := strconv.Itoa(s.timeoutMs/1000 + 1)
+	cands := [][]string{
+		{"z3", "-in", "-T:" + secs},
+		{"cvc5", "--lang=smt2", "--produce-models", "--solve-bv-as-int=sum", "--tlimit=" + strconv.Itoa(s.timeoutMs)},
+		{"cvc5", "--lang=smt2", "--produce-models", "--tlimit=" + strconv.Itoa(s.timeoutMs)},
+	}
+	ch := make(chan ans, len(cands))
+	var cmds []*exec.Cmd
+	for _, argv := range cands {
+		script := q
+		if argv[0] == "cvc5" {
+			script = strings.Replace(script, "(set-option :produce-models true)\n", "(set-option :produce-models true)\n(set-logic ALL)\n", 1)
+		} else {
+			script = "(set-option :timeout " + strconv.Itoa(s.timeoutMs) + ")\n" + script
+		}
+		cmd := exec.Command(argv[0], argv[1:]...)
+		cmd.Stdin = strings.NewReader(script + gv.String())
+		cmds = append(cmds, cmd)
+		go func(cmd *exec.Cmd, who string) {
+			out, _ := cmd.Output()
+			txt := strings.TrimSpace(string(out))
+			a := ans{res: Unknown, who: who}
+			switch {
+			case strings.HasPrefix(txt, "unsat"):
+				a.res = Unsat
+			case strings.HasPrefix(txt, "sat"):
+				a.res = Sat
+				if i := strings.Index(txt, "("); i >= 0 && !strings.Contains(txt[i:], "(error") {
+					a.model = parseModel(txt[i:])
+				} else if len(wantModel) > 0 {
+					a.res = Unknown
+				}
+			}
+			ch <- a
+		}(cmd, strings.Join(argv[:2], " "))
+	}
+	res, model := Unknown, map[string]uint64(nil)
+	for range cands {
+		a := <-ch
+		if a.res == Unknown {
+			continue
+		}
+		res, model = a.res, a.model
+		break
+	}
+	for _, c := range cmds {
+		if c.Process != nil {
+			c.Process.Kill()
+		}
+	}
+	if s.logf != nil {
+		s.logf.WriteString(q + gv.String())
+	}
+	return res, model
+}
+
 func (s *Solver) runQuery(q string, wantModel []*Term, popAfter bool) (Result, map[string]uint64) {
+	if s.kind == "portfolio" {
+		return s.portfolioQuery(q, wantModel)
+	}
+	if s.kind == "cvc5int" {
+		s.restart()
+		q = strings.Replace(q, "(reset)\n", "", 1)
+	}
 	s.send(q)
 	line, ok := s.readLineTimeout()
 	if !ok {
